@@ -545,7 +545,12 @@ def _one_length(e, case, total, log, sb, poison):
             log.add('pulls', tid, res[tid], pulls[tid])
         if kind == 'filter' and not any(n in END_SENSITIVE for n, _ in stack) \
                 and _header_cost(stack) < 10 ** 9 \
-                and rec.profile != 'biggroups':
+                and rec.profile != 'biggroups' \
+                and not (rec.profile == 'sorted' and len(stack) > 1):
+            # (nor is the sorted source under a further view: its pattern of
+            # group sizes repeats, its key values grow, and a filter stacked
+            # on top may well look at them - every key from 100 to 199
+            # contains a '1')
             # (the big-groups source is not periodic: its key changes four
             # times over the whole length)
             # A filter-like pipeline has no fixed rows-in per row-out, but
@@ -591,9 +596,16 @@ def _one_length(e, case, total, log, sb, poison):
                 if c['kind'] in LOOKLIKE + ('header', 'fieldnames'):
                     continue
                 d, done_ = res.get(tid, (0, True))
+                # rows needed at each level, from the consumer down: a
+                # stage's look-ahead is in rows of ITS input (skip(2) above
+                # unflatten(3) costs six source rows)
+                need = max(d, _demand(c)) + 2
+                for k in reversed(kinds_):
+                    need += k[1]
+                    if k[0] == 'contract':
+                        need *= k[2]
                 for i in streamed:
-                    bound = (2 if c['kind'] in TWICE else 1) * (
-                        fac_ * (max(d, _demand(c)) + 2) + la)
+                    bound = (2 if c['kind'] in TWICE else 1) * need
                     if pulls[tid][i] > bound and total > bound + 50:
                         raise _Bad('pulls-exceed-bound',
                                    'consumer %s obtained %d rows of a view '
